@@ -11,18 +11,23 @@ import (
 	"context"
 	"encoding/json"
 	"fmt"
+	"net"
 	"sort"
 	"strings"
+	"time"
 
 	core "github.com/envoyproxy/go-control-plane/envoy/config/core/v3"
 	ep "github.com/envoyproxy/go-control-plane/envoy/config/endpoint/v3"
 	"google.golang.org/protobuf/types/known/wrapperspb"
+	"mosn.io/api"
 	"mosn.io/mosn/istio/istio1106/xds/conv"
 	v2 "mosn.io/mosn/pkg/config/v2"
 	"mosn.io/mosn/pkg/configmanager"
 	mlog "mosn.io/mosn/pkg/log"
 	"mosn.io/mosn/pkg/protocol"
 	"mosn.io/mosn/pkg/router"
+	"mosn.io/mosn/pkg/server"
+	"mosn.io/mosn/pkg/streamfilter"
 	"mosn.io/mosn/pkg/types"
 	"mosn.io/mosn/pkg/upstream/cluster"
 	"mosn.io/pkg/variable"
@@ -56,7 +61,16 @@ type assign struct {
 	c    string
 	locs [][]xhost
 }
+type lcfg struct {
+	name, addr   string
+	chains       int
+	sf           []string
+	nf, idle     int
+	keep         int
+	tlsOk        bool
+}
 type op struct {
+	lc              lcfg
 	kind            string
 	r, c, domain    string
 	vhs             []vhost
@@ -142,6 +156,17 @@ func (o op) tok() string {
 		return "HR/" + o.c + "/" + strings.Join(o.strs, ",")
 	case "CR":
 		return "CR/" + strings.Join(o.strs, ",")
+	case "LA":
+		sf, t := "-", "T1"
+		if len(o.lc.sf) > 0 {
+			sf = strings.Join(o.lc.sf, "+")
+		}
+		if !o.lc.tlsOk {
+			t = "T0"
+		}
+		return fmt.Sprintf("LA/%s/%s/%d/%s/%d/%d/%d/%s", nameTok(o.lc.name), o.lc.addr, o.lc.chains, sf, o.lc.nf, o.lc.idle, o.lc.keep, t)
+	case "LD":
+		return "LD/" + o.r
 	case "XE":
 		var p []string
 		for _, a := range o.assigns {
@@ -220,10 +245,131 @@ func lbEndpoint(x xhost) *ep.LbEndpoint {
 	return e
 }
 
+// listenerCfg builds the v2.Listener: stream filters of the registered marker types, `nf` network filters of the registered
+// marker type in the first chain, idle timeout in seconds, default_read_buffer_size as the field an update does not copy,
+// an unreadable certificate as the tls context the manager rejects. bind_port stays false: no socket is opened.
+func listenerCfg(l lcfg) *v2.Listener {
+	a, err := net.ResolveTCPAddr("tcp", l.addr)
+	if err != nil {
+		panic(err)
+	}
+	lc := &v2.Listener{Addr: a}
+	lc.Name, lc.AddrConfig, lc.Network = l.name, l.addr, "tcp"
+	lc.DefaultReadBufferSize = l.keep
+	if l.idle > 0 {
+		lc.ConnectionIdleTimeout = &api.DurationConfig{Duration: time.Duration(l.idle) * time.Second}
+	}
+	for _, t := range l.sf {
+		lc.StreamFilters = append(lc.StreamFilters, v2.Filter{Type: t})
+	}
+	for i := 0; i < l.chains; i++ {
+		fc := v2.FilterChain{}
+		if i == 0 {
+			for j := 0; j < l.nf; j++ {
+				fc.Filters = append(fc.Filters, v2.Filter{Type: "verif_nf", Config: map[string]interface{}{"i": j}})
+			}
+			if !l.tlsOk {
+				fc.TLSContexts = []v2.TLSConfig{{Status: true, CertChain: "/nonexistent/cert.pem", PrivateKey: "/nonexistent/key.pem"}}
+			}
+		}
+		lc.FilterChains = append(lc.FilterChains, fc)
+	}
+	return lc
+}
+
+type cmFilter struct{}
+
+func (cmFilter) OnCreated(types.ClusterConfigFactoryCb, types.ClusterHostFactoryCb) {}
+
+type markFilter struct {
+	api.StreamReceiverFilter
+	typ string
+}
+type markFactory struct{ typ string }
+
+func (f markFactory) CreateFilterChain(ctx context.Context, cb api.StreamFilterChainFactoryCallbacks) {
+	cb.AddStreamReceiverFilter(&markFilter{typ: f.typ}, api.BeforeRoute)
+}
+
+type chainRecorder struct{ types []string }
+
+func (r *chainRecorder) AddStreamSenderFilter(api.StreamSenderFilter, api.SenderFilterPhase) {}
+func (r *chainRecorder) AddStreamReceiverFilter(f api.StreamReceiverFilter, p api.ReceiverFilterPhase) {
+	if m, ok := f.(*markFilter); ok {
+		r.types = append(r.types, m.typ)
+	} else {
+		r.types = append(r.types, "?")
+	}
+}
+func (r *chainRecorder) AddStreamAccessLog(api.AccessLog) {}
+
+type nfFactory struct{}
+
+func (nfFactory) CreateFilterChain(context.Context, api.NetWorkFilterChainFactoryCallbacks) {}
+
+func registerMarkers() {
+	for _, t := range []string{"vfa", "vfb"} {
+		t := t
+		api.RegisterStream(t, func(map[string]interface{}) (api.StreamFilterChainFactory, error) { return markFactory{t}, nil })
+	}
+	api.RegisterNetwork("verif_nf", func(map[string]interface{}) (api.NetworkFilterChainFactory, error) { return nfFactory{}, nil })
+}
+
+func newServer() (types.ConnectionHandler, *server.ListenerAdapter) {
+	server.ResetAdapter()
+	srv := server.NewServer(server.NewConfig(&v2.ServerConfig{ServerName: "verif"}), cmFilter{}, cluster.NewClusterManagerSingleton(nil, nil, nil))
+	return srv.Handler(), server.GetListenerAdapterInstance()
+}
+
+func dashJoin(xs []string) string {
+	if len(xs) == 0 {
+		return "-"
+	}
+	return strings.Join(xs, "+")
+}
+
+// obsListener: what new connections of the named listener are served with (stream-filter manager entry, network filter
+// factories, idle timeout) and the listener's own config.
+func obsListener(h types.ConnectionHandler, name string) string {
+	l := h.FindListenerByName(name)
+	if l == nil {
+		return "absent"
+	}
+	info, ok := server.VerifListenerLive(h, name)
+	if !ok {
+		return "absent"
+	}
+	var live []string
+	if f := streamfilter.GetStreamFilterManager().GetStreamFilterFactory(name); f != nil {
+		r := &chainRecorder{}
+		f.CreateFilterChain(context.Background(), r)
+		live = r.types
+	}
+	idle := 0
+	if info.IdleTimeoutSet {
+		idle = int(info.IdleTimeout / time.Second)
+	}
+	cfg := l.Config()
+	var csf []string
+	for _, f := range cfg.StreamFilters {
+		csf = append(csf, f.Type)
+	}
+	cnf, cidle := 0, 0
+	if len(cfg.FilterChains) > 0 {
+		cnf = len(cfg.FilterChains[0].Filters)
+	}
+	if cfg.ConnectionIdleTimeout != nil {
+		cidle = int(cfg.ConnectionIdleTimeout.Duration / time.Second)
+	}
+	return fmt.Sprintf("%s|%s|%d|%d|%s|%d|%d|%d", l.Addr().String(), dashJoin(live), info.NetworkFilters, idle, dashJoin(csf), cnf, cidle, cfg.DefaultReadBufferSize)
+}
+
 type env struct {
 	prefix string // real router name = prefix + canonical name
 	rm     types.RouterManager
 	cm     types.ClusterManager
+	lh     types.ConnectionHandler
+	la     *server.ListenerAdapter
 }
 
 func errTok(err error) string {
@@ -260,6 +406,10 @@ func (e *env) apply(o op) string {
 		return errTok(e.cm.RemoveClusterHosts(o.c, o.strs))
 	case "CR":
 		return errTok(e.cm.RemovePrimaryCluster(o.strs...))
+	case "LA":
+		return errTok(e.la.AddOrUpdateListener("", listenerCfg(o.lc)))
+	case "LD":
+		return errTok(e.la.DeleteListener("", o.r))
 	case "XE":
 		var las []*ep.ClusterLoadAssignment
 		for _, a := range o.assigns {
@@ -354,7 +504,8 @@ func runHistory(c *hx.Ctx, ops []op) {
 	cluster.NewClusterManagerSingleton(nil, nil, nil).Destroy()
 	e := &env{prefix: fmt.Sprintf("h%d.", histNo), rm: router.GetRoutersMangerInstance(),
 		cm: cluster.NewClusterManagerSingleton(nil, nil, nil)}
-	var toks, res, rnames, cnames []string
+	e.lh, e.la = newServer()
+	var toks, res, rnames, cnames, lnames []string
 	for _, o := range ops {
 		toks = append(toks, o.tok())
 		var rtok string
@@ -377,10 +528,18 @@ func runHistory(c *hx.Ctx, ops []op) {
 			for _, a := range o.assigns {
 				cnames = append(cnames, a.c)
 			}
+		case "LA":
+			if o.lc.name == "" {
+				lnames = append(lnames, o.lc.addr)
+			} else {
+				lnames = append(lnames, o.lc.name)
+			}
+		case "LD":
+			lnames = append(lnames, o.r)
 		}
 		c.Count("op." + o.kind + "." + res[len(res)-1])
 	}
-	rnames, cnames = uniqSorted(rnames), uniqSorted(cnames)
+	rnames, cnames, lnames = uniqSorted(rnames), uniqSorted(cnames), uniqSorted(lnames)
 
 	// live observation
 	liveR := joinObs(rnames, func(n string) string {
@@ -394,6 +553,7 @@ func runHistory(c *hx.Ctx, ops []op) {
 		return "nil"
 	})
 	liveC := joinObs(cnames, func(n string) string { return obsCluster(e.cm, n) })
+	liveL := joinObs(lnames, func(n string) string { return obsListener(e.lh, n) })
 
 	// dump: the bytes MOSN persists (and hands to a new process on hot upgrade), parsed back as a start would
 	raw, err := configmanager.InheritMosnconfig()
@@ -445,11 +605,30 @@ func runHistory(c *hx.Ctx, ops []op) {
 	rebC := joinObs(cnames, func(n string) string { return obsCluster(fresh, n) })
 	fresh.Destroy()
 
+	// rebuild the listeners as a start does: ParseListenerConfig + AddOrUpdateListener on a fresh server
+	fh, fa := newServer()
+	if len(dumped.Servers) > 0 {
+		for i := range dumped.Servers[0].Listeners {
+			lc := configmanager.ParseListenerConfig(&dumped.Servers[0].Listeners[i], nil, nil)
+			found := false
+			for _, n := range lnames {
+				found = found || n == lc.Name
+			}
+			if !found {
+				lnames = append(lnames, lc.Name)
+			}
+			if err := fa.AddOrUpdateListener("", lc); err != nil {
+				c.Count("rebuild.listener.refused")
+			}
+		}
+	}
+	rebL := joinObs(lnames, func(n string) string { return obsListener(fh, n) })
+
 	r := "-"
 	if len(res) > 0 {
 		r = strings.Join(res, ",")
 	}
-	c.Emit("C12", strings.TrimSpace("hist "+strings.Join(toks, " ")), r+" "+liveR+" "+rebR+" "+liveC+" "+rebC)
+	c.Emit("C12", strings.TrimSpace("hist "+strings.Join(toks, " ")), r+" "+liveR+" "+rebR+" "+liveC+" "+rebC+" "+liveL+" "+rebL)
 	c.Count(fmt.Sprintf("len=%02d", len(ops)))
 }
 
@@ -463,13 +642,44 @@ var lookupDomPool = []string{"a.b", "c.b", "q.b", "x.y", "zz", "A.B", "*", "*.b"
 var addrPool = []string{"127.0.0.1:80", "127.0.0.1:8000", "127.0.0.1:8001", "127.0.0.1:81", "127.0.0.2:80", "10.0.0.1:9", "10.0.0.10:9", "10.0.0.2:9"}
 var weightPool = []int{1, 1, 2, 3, 1, 128, 0, 129, 500}
 var pfxPool = []string{"", "a", "ab", "b"}
+var lnamePool = []string{"l1", "l2", ""}
+var laddrPool = []string{"127.0.0.1:1001", "127.0.0.1:1002"}
+var sfPool = [][]string{nil, {"vfa"}, {"vfb"}, {"vfa", "vfb"}, {"vfb", "vfa"}, {"vfa", "vfa"}}
 
 type gen struct {
 	c       *hx.Ctx
 	rid     int
 	routers map[string]bool
 	clus    map[string]bool
-	bad     bool // malformed stream: mostly invalid operations
+	lst     map[string]string // listener name -> address it was created with
+	bad     bool              // malformed stream: mostly invalid operations
+}
+
+func (g *gen) listener() lcfg {
+	r := g.c.Rng
+	l := lcfg{name: r.PickS(lnamePool), addr: r.PickS(laddrPool), chains: 1, sf: sfPool[r.Intn(len(sfPool))], nf: r.Intn(3),
+		idle: r.Pick([]int{0, 0, 1, 2}), keep: r.Pick([]int{0, 1024, 2048}), tlsOk: true}
+	key := l.name
+	if key == "" {
+		key = l.addr
+	}
+	if a, ok := g.lst[key]; ok && !g.bad && r.Chance(85) {
+		l.addr = a // mostly a valid update: same address
+	}
+	pBad := 6
+	if g.bad {
+		pBad = 30
+	}
+	if r.Chance(pBad) {
+		l.chains = r.Pick([]int{0, 2})
+	}
+	if r.Chance(pBad) {
+		l.tlsOk = false
+	}
+	if _, ok := g.lst[key]; !ok && l.chains == 1 && l.tlsOk {
+		g.lst[key] = l.addr
+	}
+	return l
 }
 
 func (g *gen) route() route {
@@ -542,9 +752,10 @@ func (g *gen) op() op {
 	if g.bad {
 		pk = 25
 	}
-	kinds := []string{"RU", "RU", "RA", "RA", "RA", "RR", "CP", "CH", "CH", "HU", "HU", "HA", "HA", "HR", "HR", "CR", "XE", "XE", "RN", "CN"}
+	kinds := []string{"RU", "RU", "RA", "RA", "RA", "RR", "CP", "CH", "CH", "HU", "HU", "HA", "HA", "HR", "HR", "CR", "XE", "XE", "RN", "CN",
+		"LA", "LA", "LA", "LA", "LD"}
 	if g.bad {
-		kinds = append(kinds, "RN", "CN", "CR", "RA", "RR", "HR", "XE", "HU")
+		kinds = append(kinds, "RN", "CN", "CR", "RA", "RR", "HR", "XE", "HU", "LA", "LD")
 	}
 	k := r.PickS(kinds)
 	// mostly-valid stream: operations on clusters / routers that do not exist yet are mostly turned into creations
@@ -561,6 +772,20 @@ func (g *gen) op() op {
 		}
 	}
 	switch k {
+	case "LA":
+		return op{kind: k, lc: g.listener()}
+	case "LD":
+		var known []string
+		for n := range g.lst {
+			known = append(known, n)
+		}
+		sort.Strings(known)
+		n := r.PickS([]string{"l1", "l2", "l3", "127.0.0.1:1001"})
+		if len(known) > 0 && r.Chance(pk) {
+			n = r.PickS(known)
+		}
+		delete(g.lst, n)
+		return op{kind: k, r: n}
 	case "RN":
 		return op{kind: k}
 	case "RU":
@@ -647,7 +872,7 @@ func (g *gen) op() op {
 }
 
 func (g *gen) history(n int) []op {
-	g.routers, g.clus = map[string]bool{}, map[string]bool{}
+	g.routers, g.clus, g.lst = map[string]bool{}, map[string]bool{}, map[string]string{}
 	var ops []op
 	for len(ops) < n {
 		o := g.op()
@@ -664,9 +889,21 @@ func corpus() [][]op {
 	h := func(a string, w uint32) host { return host{addr: a, name: "n", w: w} }
 	x := func(a string, w int64) xhost { return xhost{addr: a, w: w} }
 	vh := []vhost{{name: "v0", doms: []string{"a.b"}, routes: []route{{"t1", "", true}}}, {name: "v1", doms: []string{"*"}}}
+	la := lcfg{name: "l1", addr: "127.0.0.1:1001", chains: 1, sf: []string{"vfa"}, nf: 1, keep: 1024, tlsOk: true}
+	lb := la
+	lb.sf, lb.idle, lb.keep, lb.nf = []string{"vfb", "vfa"}, 2, 2048, 2
+	lbadAddr, lbadTLS, lbadChains, lnoName := lb, lb, lb, la
+	lbadAddr.addr, lbadAddr.sf = "127.0.0.1:1002", nil
+	lbadTLS.tlsOk, lbadTLS.sf, lbadTLS.nf = false, []string{"vfb"}, 0
+	lbadChains.chains = 2
+	lnoName.name = ""
 	return [][]op{
 		{},
 		{{kind: "RN"}},
+		// listeners: add, update (idle timeout), rejected updates change nothing, unnamed listener, delete removes the dumped config
+		{{kind: "LA", lc: la}, {kind: "LA", lc: lb}, {kind: "LA", lc: lbadAddr}},
+		{{kind: "LA", lc: la}, {kind: "LA", lc: lb}, {kind: "LA", lc: lbadTLS}, {kind: "LA", lc: lbadChains}, {kind: "LA", lc: lnoName}, {kind: "LD", r: "l1"}},
+		{{kind: "LA", lc: lbadTLS}, {kind: "LD", r: "l1"}, {kind: "LA", lc: la}, {kind: "LD", r: "l1"}, {kind: "LD", r: "l1"}},
 		// multi-locality assignment: union, not the last locality (DESIGN.md section 6 row 12)
 		{{kind: "CP", c: "c1", tag: 1}, {kind: "XE", assigns: []assign{{c: "c1", locs: [][]xhost{
 			{x("127.0.0.1:8000", 1), x("127.0.0.1:8001", -1)}, {x("127.0.0.2:80", 500)}, {x("127.0.0.1:8000", 3), x("10.0.0.1:9", 0)}}}}}},
@@ -686,6 +923,7 @@ func Run(c *hx.Ctx) {
 	mlog.DefaultLogger.Toggle(true)
 	mlog.StartLogger.Toggle(true)
 	cluster.RegisterClusterType(nilClusterType, func(v2.Cluster) types.Cluster { return nil })
+	registerMarkers()
 	for _, h := range corpus() {
 		runHistory(c, h)
 		c.Count("stream=corpus")
